@@ -15,7 +15,10 @@ import copy
 
 from simprocesd.model import System, EventType
 from simprocesd.model.factory_floor import (Source, Sink, PartHandler, PartProcessor, Buffer, DecisionGate,
-                                            PartBatcher, Group, Maintainer, Part, PartGenerator, Batch, ActionScheduler)
+                                            PartBatcher, Group, Maintainer, Part, PartGenerator, Batch, ActionScheduler,
+                                            PartFlowController)
+from simprocesd.model.sensors import PeriodicSensor, OutputPartSensor, Sensor, AttributeProbe, Probe
+from simprocesd.model.cms import Cms
 
 from engine.ctx import Truncated
 
@@ -34,6 +37,7 @@ class RecGen(PartGenerator):
 
     def __init__(self, prefix, value, log, batch_sizes=None, items=None):
         super().__init__(prefix, value=value)
+        self._given_value = value
         self._log = log
         self._items = items if items is not None else []
         self._batch_sizes = batch_sizes
@@ -49,6 +53,7 @@ class RecGen(PartGenerator):
                 for j in range(entry[0]):
                     p = Part(f'{part_name}_i{j}', self.value, self.quality)
                     p.idx = (part_counter, j)
+                    p.start_value = self._given_value
                     inner.append(p)
                     self._log.append(p)
                 ib = Batch(part_name + '_inner', inner)
@@ -58,6 +63,7 @@ class RecGen(PartGenerator):
             for j in range(entry):
                 p = Part(f'{part_name}_{j}', self.value, self.quality)
                 p.idx = (part_counter, 10 + j)
+                p.start_value = self._given_value
                 parts.append(p)
                 self._log.append(p)
             b = Batch(part_name, parts)
@@ -66,6 +72,7 @@ class RecGen(PartGenerator):
             return b
         p = super().generate_part_helper(part_name, part_counter)
         p.idx = (part_counter, None)
+        p.start_value = self._given_value
         self._log.append(p)
         self._items.append(p)
         return p
@@ -89,6 +96,8 @@ class World:
         self.generated = []      # leaf parts in creation order (per run)
         self.items = []          # what the sources generated (parts and batches), in creation order
         self.gate_log = []       # (gate, id(leaf part), verdict) at every evaluation of a gate predicate
+        self.start_value = {}    # device name -> starting value given to its constructor (default 0)
+        self.between = {}        # run index -> operations performed after that run returned
         self.deferred = []       # callback registrations to perform after the monitors attached theirs
         self.maintainer = None
         self.monitors = []
@@ -173,13 +182,16 @@ def build(world):
             name = None          # the library derives the name from the asset id
         # a device listed in a group is created first; the group is created when its first path is needed
         up = [world.dev[u] for u in d.get('up', [])]
+        v0 = {} if d.get('value0') is None else {'value': world.val(d['value0'])}
+        if v0:
+            world.start_value[key] = world.val(d['value0'])
         if k == 'source':
             gen = RecGen(f'P{name}', world.val(d.get('value', 0)), world.generated, d.get('batches'), world.items)
             if 'batches' in d and d['batches'] is not None:
                 gen._batch_sizes = [None if b is None else (tuple(b) if isinstance(b, (list, tuple)) else world.val(b)) for b in d['batches']]
             obj = Source(name, gen, world.val(d.get('cycle', 0)), d.get('parts', 2))
         elif k == 'handler':
-            obj = PartHandler(name, up, world.val(d.get('cycle', 0)))
+            obj = PartHandler(name, up, world.val(d.get('cycle', 0)), **v0)
             if d.get('recv_addvalue') is not None:
                 # registered after the monitors' callbacks (run_world): those see the part as it arrived, like the record
                 world.deferred.append(lambda obj=obj, a=world.val(d['recv_addvalue']): obj.add_receive_part_callback(
@@ -189,7 +201,7 @@ def build(world):
             wp = ('durs' in d or 'needs' in d or 'costs' in d)
             cls = _hashed(WProc, world) if wp else PartProcessor
             obj = cls(name, up, world.val(d.get('cycle', 0)),
-                      resources_for_processing=None if res is None else {r: world.val(a) for r, a in res.items()})
+                      resources_for_processing=None if res is None else {r: world.val(a) for r, a in res.items()}, **v0)
             if wp:
                 # instance attributes (a class built with type(...) would push the symbolic numbers through a C call,
                 # which makes CrossHair enumerate their values)
@@ -197,7 +209,7 @@ def build(world):
                 obj.wo_needs = {t: world.val(v) for t, v in d.get('needs', {}).items()}
                 obj.wo_costs = {t: world.val(v) for t, v in d.get('costs', {}).items()}
         elif k == 'buffer':
-            obj = Buffer(name, up, world.val(d.get('delay', 0)), d.get('cap'))
+            obj = Buffer(name, up, world.val(d.get('delay', 0)), d.get('cap'), **v0)
         elif k == 'sink':
             obj = Sink(name, up, world.val(d.get('cycle', 0)), collect_parts=True)
             if d.get('recv_addvalue') is not None:
@@ -227,7 +239,7 @@ def build(world):
             obj = DecisionGate(name, up, decider_override=logged)
             obj.pred = fn
         elif k == 'batcher':
-            obj = PartBatcher(name, up, output_batch_size=d.get('size'))
+            obj = PartBatcher(name, up, output_batch_size=d.get('size'), **v0)
         elif k == 'path':
             gname = d['group']
             if gname not in group_objs:
@@ -240,8 +252,18 @@ def build(world):
             world.sched_calls = []
             obj.register_object(object(), lambda s_, o_, t_, st_: world.sched_calls.append((t_, st_)))
         elif k == 'maintainer':
-            obj = Maintainer(name, capacity=world.val(d.get('capacity', 10 ** 6)))
+            obj = Maintainer(name, capacity=world.val(d.get('capacity', 10 ** 6)), **v0)
             world.maintainer = obj
+        elif k == 'junction':
+            obj = PartFlowController(name, up, **v0)
+        elif k == 'psensor':
+            obj = PeriodicSensor(world.val(d['interval']), [AttributeProbe('name', world.dev[d['target']])], name, **v0)
+        elif k == 'osensor':
+            obj = OutputPartSensor(world.dev[d['target']], [Probe(lambda part: part.id, None)], name=name, **v0)
+        elif k == 'sensor':
+            obj = Sensor([AttributeProbe('name', world.dev[d['target']])], name, **v0)
+        elif k == 'cms':
+            obj = Cms(world.maintainer, name, **v0)
         else:
             raise ValueError(k)
         world.dev[key] = obj
@@ -260,7 +282,7 @@ def _schedule_ops(world):
     for i, op in enumerate(world.spec.get('ops', [])):
         k = op['k']
         dev = world.dev.get(op.get('dev'))
-        t = world.val(op['t'])
+        t = world.val(op.get('t', 0))
         prio = {'low': EventType.OTHER_LOW_PRIORITY, 'high': EventType.OTHER_HIGH_PRIORITY}[op.get('prio', 'low')]
 
         def action(k=k, dev=dev, op=op, i=i):
@@ -314,6 +336,10 @@ def _schedule_ops(world):
             for m in world.monitors:
                 m.after_op(i, op)
         action.__name__ = f'op_{k}'
+        if 'after_run' in op:
+            # performed by the user's script between two simulate() calls, not by an event
+            world.between.setdefault(op['after_run'], []).append(action)
+            continue
         if k == 'fail':
             # the documented API (FAIL priority, the machine's own asset id); needs an initialised machine,
             # so it is called from an event at time 0
@@ -404,19 +430,21 @@ def run_world(world, monitors):
     trace = bool(world.spec.get('trace'))
     if trace:
         world.trace_recorder = _TraceRecorder.install()
-    for h in horizons:
+    for i, h in enumerate(horizons):
         world.run_end = world.ctx.z(world.env.now) + world.zval(h)
         system.simulate(world.val(h), trace=trace, print_summary=False)
         for m in world.monitors:
             m.after_run()
         for m in world.monitors:
             m.before_clock_advance()
+        for act in world.between.get(i, []):
+            act()
     for m in world.monitors:
         m.at_end()
     return world
 
 
-VALUE_KEYS = {'cycle', 'delay', 'value', 't', 'amount', 'capacity', 'dur', 'cost', 'needcap', 'interval', 'horizon',
+VALUE_KEYS = {'cycle', 'delay', 'value', 'value0', 't', 'amount', 'capacity', 'dur', 'cost', 'needcap', 'interval', 'horizon',
               'addvalue', 'finish_offset', 'recv_addvalue'}
 VALUE_CONTAINERS = {'pools', 'res', 'batches', 'horizons', 'durs', 'needs', 'costs'}   # 'durs' may be a dict (work orders) or a list (scheduler)
 
@@ -1165,7 +1193,9 @@ class ValueMon(Monitor):
         w, ctx = self.w, self.ctx
         z = ctx.z
         assets = [w.dev[n] for n in w.order] + list(w.generated)
-        vals = [(a, a.value, a._initial_value, list(a.value_history)) for a in assets]
+        given = {id(w.dev[n]): w.start_value.get(n, 0) for n in w.order}
+        vals = [(a, a.value, given[id(a)] if id(a) in given else getattr(a, 'start_value', a._initial_value), list(a.value_history))
+                for a in assets]
         net = w.system.get_net_value_of_assets()
         with ctx.notrace():
             now = w.now()
@@ -1194,7 +1224,7 @@ class ValueMon(Monitor):
                     item = next(p for p in w.items if p.id == rec[1])
                     # value of the supplied item when it left the source = value history of its leaf parts up to that instant
                     for part in leaves(item):
-                        v = z(part._initial_value)
+                        v = z(getattr(part, 'start_value', part._initial_value))
                         for e in part.value_history:
                             v = v + ctx.If(z(e[1]) < z(rec[0]), z(e[2]), 0)
                         self.supplied[n] = self.supplied[n] + v
